@@ -280,9 +280,8 @@ def minimise(mod, plan, target, max_runs=400, max_seconds=40):
 # replay
 # --------------------------------------------------------------------------------------------
 def write_replay(mod, seed, plan, vwire, original_seed=None):
-    os.makedirs(os.path.join(VERIF, 'replays'), exist_ok=True)
     name = f'{mod.PROP}-{vwire["rule"]}-{seed}.json'
-    path = os.path.join(VERIF, 'replays', name)
+    path = os.path.join(out_dir('replays'), name)
     with open(path, 'w') as fh:
         json.dump({'property': mod.PROP, 'seed': seed, 'rule': vwire['rule'], 'signature': vwire['signature'],
                    'detail': vwire['detail'], 'plan': plan, 'code_digest': boot.code_digest(),
@@ -483,8 +482,16 @@ def main_check(mod, argv):
     return exit_code
 
 
+def out_dir(kind):
+    """evidence/ and replays/ for runs against /repo; *-scratch/ (git-ignored) when BSIM_REPO points the
+    checks at a scratch copy (mutants, seeded changes), so committed evidence always describes /repo."""
+    name = kind + ('-scratch' if os.environ.get('BSIM_REPO') else '')
+    path = os.path.join(VERIF, name)
+    os.makedirs(path, exist_ok=True)
+    return path
+
+
 def write_evidence(mod, tier, seed, total, meta, wall, n_violation_groups, known_hits):
-    os.makedirs(os.path.join(VERIF, 'evidence'), exist_ok=True)
     runs = total.c['runs']
     per_hour = int(runs / wall * 3600) if wall > 0 else 0
     cov = {
@@ -521,7 +528,7 @@ def write_evidence(mod, tier, seed, total, meta, wall, n_violation_groups, known
         'wall_s': round(wall, 2),
         'violations': n_violation_groups,
     }
-    path = os.path.join(VERIF, 'evidence', f'{mod.PROP}.json')
+    path = os.path.join(out_dir('evidence'), f'{mod.PROP}.json')
     with open(path, 'w') as fh:
         json.dump(ev, fh, indent=1, default=str)
         fh.write('\n')
